@@ -113,6 +113,10 @@ func runPoolSkip(kind string, n int, tasks [][]byte, skip func(i int) bool, hand
 					continue
 				}
 				handle(i, poolResult{Res: res})
+				if bytes.Contains(res, []byte(`"poisoned":true`)) {
+					p.kill()
+					p = nil
+				}
 			}
 		}()
 	}
